@@ -196,6 +196,10 @@ package ice
 //@   opt nosafety
 //@   site call AddRemoteCandidate$1#1 assert tcp-active-is-never-queued: cand != nil && cand.TCPType() != TCPTypeActive
 //@   site call resolveAndAddMulticastCandidate#1 assert tcp-active-is-never-resolved: cand.TCPType() != TCPTypeActive
+//@ func (*Agent).AddRemoteCandidate$1$1
+//@   props AUX
+//@   opt nosafety
+//@   site call addRemoteCandidate#1 assert C06 the-queued-task-adds-exactly-the-candidate-that-was-signalled: arg0 == a && arg1 == cand
 //@ enumerate C06 calls ice.(*Agent).addRemoteCandidate in (*Agent).AddRemoteCandidate, (*Agent).resolveAndAddMulticastCandidate, (*Agent).handleInboundRequest
 
 // The wipe used by Restart, by the transition to Failed and by Close: every table entry that the range has
